@@ -435,11 +435,7 @@ def two_threads(res, fallback, tier):
                 ("gets", "cas"), ("get_many", "delete")]
     for n, hits in ((2, (False, True)), (3, (False, False, True)), (3, (False, True, True)), (2, (False, False))):
         for pa, pb in programs:
-            stack = [({}, 0)]
-            executed = 0
-            while stack and executed < (300 if tier == "quick" else 3000):
-                forced, used = stack.pop()
-                sch = S.Sched(2, forced)
+            def make(sch, n=n, hits=hits, pa=pa, pb=pb):
                 log = []
 
                 class TCache(Cache):
@@ -476,60 +472,41 @@ def two_threads(res, fallback, tier):
                         except BaseException as e:
                             outs[t] = ("exc", e)
                     return run
-                ok = sch.run([prog(0, pa), prog(1, pb)])
-                executed += 1
-                res.count("two_thread_schedules")
-                res.count("cache_calls_logged", len(log))
-                case = ("two-threads", n, hits, pa, pb, sorted(forced.items(), key=repr))
-                sig = tuple((i, a, b) for i, a, b, pre in sch.switches)
-                res.case(("two-threads", n, hits, pa, pb, sig) if sch.switches else None)
-                bad = None
-                if not ok or sch.deadlock or sch.errors:
-                    bad = ("two-threads:did-not-complete", "deadlock %r errors %r" % (sch.deadlock, sch.errors))
-                else:
+
+                def judge(ok, sch_):
+                    res.count("cache_calls_logged", len(log))
                     first = next((i for i in range(n) if hits[i]), None)
                     for t, op in ((0, pa), (1, pb)):
                         mine = [e for e in log if e[-1] == t]
                         consulted = [e[0] for e in mine]
                         out = outs.get(t)
                         if out is None or out[0] != "ret":
-                            bad = ("two-threads:raises:" + op, "thread %d's %s -> %r" % (t, op, out))
-                        elif op in READS:
+                            return ("two-threads:raises:" + op, "thread %d's %s -> %r" % (t, op, out))
+                        if op in READS:
                             res.count("reads_checked")
                             want = list(range(n if first is None else first + 1))
                             if consulted != want:
-                                bad = ("two-threads:wrong-caches-consulted:" + op, "thread %d's %s consulted %r, expected %r (hits %r)"
-                                       % (t, op, consulted, want, hits))
-                            elif first is not None and out[1] != caches[first].answers.get(op):
-                                bad = ("two-threads:not-first-hit:" + op, "thread %d's %s returned %r" % (t, op, out[1]))
-                            elif first is None and out[1]:
-                                bad = ("two-threads:all-miss-returns-value:" + op, "thread %d's %s returned %r" % (t, op, out[1]))
+                                return ("two-threads:wrong-caches-consulted:" + op, "thread %d's %s consulted %r, expected %r (hits %r)"
+                                        % (t, op, consulted, want, hits))
+                            if first is not None and out[1] != caches[first].answers.get(op):
+                                return ("two-threads:not-first-hit:" + op, "thread %d's %s returned %r" % (t, op, out[1]))
+                            if first is None and out[1]:
+                                return ("two-threads:all-miss-returns-value:" + op, "thread %d's %s returned %r" % (t, op, out[1]))
                         else:
                             res.count("writes_checked")
                             if consulted != [0] or mine[0][1] != op:
-                                bad = ("two-threads:write-reaches-fallback:" + op, "thread %d's %s: calls %r" % (t, op, mine))
-                if bad:
-                    res.violation(bad[0], bad[1] + " ; program (%s || %s), schedule %r" % (pa, pb, sorted(forced.items(), key=repr)), case)
-                    break
-                last = max([k for k in forced if isinstance(k, int)], default=-1)
-                for (i, me, run, kind) in sch.trace:
-                    if i == "start":
-                        if not forced:
-                            stack.extend(({"start": t}, used) for t in run[1:])
-                        continue
-                    if i <= last:
-                        continue
-                    if kind in ("block", "finish"):
-                        for t in run[1:]:
-                            f = dict(forced)
-                            f[i] = t
-                            stack.append((f, used))
-                    elif used < P:
-                        for t in run:
-                            if t != me:
-                                f = dict(forced)
-                                f[i] = t
-                                stack.append((f, used + 1))
+                                return ("two-threads:write-reaches-fallback:" + op, "thread %d's %s: calls %r" % (t, op, mine))
+                    return None
+                return [prog(0, pa), prog(1, pb)], judge
+
+            def on_run(sch, n=n, hits=hits, pa=pa, pb=pb):
+                res.count("two_thread_schedules")
+                sig = tuple((i, a, b) for i, a, b, pre in sch.switches)
+                res.case(("two-threads", n, hits, pa, pb, sig) if sch.switches else None)
+            ex, exhaustive, bad = S.explore_threads(make, 2, P, 300 if tier == "quick" else 3000, on_run)
+            if bad:
+                res.violation(bad[0], bad[1] + " ; program (%s || %s), schedule %r" % (pa, pb, sorted(bad[2].items(), key=repr)),
+                              ("two-threads", n, hits, pa, pb))
 
 
 def shard(tier, seed, idx, n_sh):
